@@ -4,7 +4,6 @@ import (
 	"bytes"
 	"context"
 	"encoding/binary"
-	"encoding/hex"
 	"errors"
 	"fmt"
 	"os"
@@ -96,11 +95,6 @@ func (c *c21Case) backPoint(i int) (uint64, []byte) {
 	}
 	h := c.h(i, "back")
 	return binary.BigEndian.Uint64(h[:8]) >> 24, c.h(i, "backhash")
-}
-
-func (c *c21Case) blk(i int) blk {
-	r := c.History[i].Blk
-	return variant(bases()[r.Fixture], r.Salt)
 }
 
 // filler items served after the history when a stopping client still has
@@ -330,6 +324,7 @@ type csLog struct {
 	stopSig   chan struct{}
 	stopOnce  sync.Once
 	stopRet   bool
+	entered   int
 	afterStop int
 }
 
@@ -339,7 +334,10 @@ func (l *csLog) enter() { l.enterKind(false) }
 // asynchronous to the client by design and therefore may run after Stop().
 func (l *csLog) enterKind(apply bool) {
 	l.mu.Lock()
-	n := len(l.ev) + 1
+	// own counter: with a block pipeline the apply function and the rollback
+	// callback can run concurrently, len(l.ev) would give both the same number
+	l.entered++
+	n := l.entered
 	d := l.delays[(n-1)%len(l.delays)]
 	if l.stopRet && !apply {
 		l.afterStop++
@@ -400,7 +398,7 @@ func (t csTip) String() string {
 // ---- the check ----------------------------------------------------------------------
 
 const (
-	c21Bound = 40 * time.Second // bounded liveness for every wait on the library
+	c21Bound = 25 * time.Second // bounded liveness for every wait on the library
 	// After Stop() has returned the client's protocol instance is shut down; a
 	// MsgDone it managed to queue reaches the wire within microseconds. Waiting
 	// this long for MsgDone / the end of the connection is far beyond 20x that.
@@ -459,6 +457,7 @@ func installC21Tracer() {
 }
 
 func TestC21(t *testing.T) {
+	limitShrinkTime()
 	installC21Tracer()
 	defer protocol.SetVerifTracer(nil)
 	defer pipeline.SetVerifStageHook(nil)
@@ -469,7 +468,7 @@ func TestC21(t *testing.T) {
 		"pipeline limit 0 is 'unset' and means the documented default 75 (chainsync.NewClient)",
 		"the wire-level count (#RequestNext received by the server - #RollForward/RollBackward sent by the server) bounds the client's own count of unanswered requests from below, so exceeding the limit on the wire implies exceeding it in the client",
 		"Stop() is called from a goroutine other than the callback (the callback API offers ErrStopSyncProcess for the other case); after Stop the server keeps answering every request it received",
-		"bounded liveness: no progress for 40 s = stall; Stop() not returning for 15 s (its own timers are 250 ms and 5 s) = hang; 3 s after Stop() returned with nothing owed by the server, neither MsgDone nor the end of the connection = conversation left open",
+		"bounded liveness: no progress for 25 s = stall; Stop() not returning for 15 s (its own timers are 250 ms and 5 s) = hang; 3 s after Stop() returned with nothing owed by the server, neither MsgDone nor the end of the connection = conversation left open",
 		"with a block pipeline the apply function takes the place of the roll-forward callback and may legitimately run after Stop() returned",
 	)
 	rec.Check(func(rt *rapid.T) {
@@ -1077,5 +1076,3 @@ func caseSummary(cs *c21Case) map[string]any {
 	}
 	return out
 }
-
-var _ = hex.EncodeToString
